@@ -73,6 +73,8 @@ type translator struct {
 	isErr bool     // the single result is `error`
 	rbool []bool   // explicit results that are bool
 	gty   map[string]string // Go integer type of every local variable / parameter (int32 arithmetic wraps, see goType)
+	brk   func(sc scope) string // what `break` yields inside the loop being translated (nil outside loops)
+	fuel  bool                  // the function contains a loop whose condition is a method call: it takes a fuel argument
 }
 
 func leanType(e ast.Expr, structs map[string]*ast.StructType) string {
@@ -139,10 +141,14 @@ func (t *translator) key(recv, name string) string {
 
 func (t *translator) defName(k string) string {
 	// Histogram.getBucketIndex -> getBucketIndex (method names are unique in the translated set)
+	n := k
 	if i := strings.Index(k, "."); i >= 0 {
-		return lname(k[i+1:])
+		n = k[i+1:]
 	}
-	return lname(k)
+	if _, clash := t.structs[n]; clash {
+		return "new_" + n // a function named like a translated struct (constructor methods)
+	}
+	return lname(n)
 }
 
 // expr translates an integer-valued expression
@@ -172,6 +178,50 @@ func (t *translator) expr(e ast.Expr, sc scope) string {
 		if x.Op == token.ADD {
 			return t.expr(x.X, sc)
 		}
+		if x.Op == token.AND {
+			if cl, ok := x.X.(*ast.CompositeLit); ok {
+				return t.expr(cl, sc) // &T{…}: the struct value (pointers to translated structs are the structs)
+			}
+		}
+	case *ast.CompositeLit:
+		id, ok := x.Type.(*ast.Ident)
+		if !ok {
+			bail(x.Pos(), "composite literal of an unnamed type")
+		}
+		st, ok := t.structs[id.Name]
+		if !ok {
+			bail(x.Pos(), "composite literal of a type that is not translated")
+		}
+		given := map[string]string{}
+		for _, el := range x.Elts {
+			kv, ok := el.(*ast.KeyValueExpr)
+			if !ok {
+				bail(x.Pos(), "positional composite literal")
+			}
+			given[kv.Key.(*ast.Ident).Name] = t.expr(kv.Value, sc)
+		}
+		var fs []string
+		for _, f := range st.Fields.List {
+			ty := leanType(f.Type, t.structs)
+			if ty == "" {
+				continue
+			}
+			for _, n := range f.Names {
+				v, ok := given[n.Name]
+				if !ok {
+					switch ty {
+					case "Int":
+						v = "0"
+					case "Bool":
+						v = "false"
+					default:
+						bail(x.Pos(), "composite literal leaves the struct field %s unset", n.Name)
+					}
+				}
+				fs = append(fs, lname(n.Name)+" := "+v)
+			}
+		}
+		return "({ " + strings.Join(fs, ", ") + " } : " + id.Name + ")"
 	case *ast.IndexExpr:
 		return "(Go.index " + t.expr(x.X, sc) + " " + t.expr(x.Index, sc) + ")"
 	case *ast.BinaryExpr:
@@ -368,6 +418,25 @@ func (t *translator) typeOfExpr(e ast.Expr, sc scope) string {
 		if x.Op == token.NOT {
 			return "Bool"
 		}
+		if x.Op == token.AND {
+			return t.typeOfExpr(x.X, sc)
+		}
+	case *ast.CompositeLit:
+		if id, ok := x.Type.(*ast.Ident); ok {
+			return id.Name
+		}
+	case *ast.CallExpr:
+		var fd *ast.FuncDecl
+		if id, ok := x.Fun.(*ast.Ident); ok {
+			fd = t.funcs[id.Name]
+		} else if sel, ok := x.Fun.(*ast.SelectorExpr); ok {
+			fd = t.funcs[t.key(t.typeOf(sel.X, sc), sel.Sel.Name)]
+		}
+		if fd != nil && fd.Type.Results != nil && len(fd.Type.Results.List) == 1 {
+			if ty := leanType(fd.Type.Results.List[0].Type, t.structs); ty != "" {
+				return ty
+			}
+		}
 	case *ast.BinaryExpr:
 		switch x.Op {
 		case token.LAND, token.LOR, token.EQL, token.NEQ, token.LSS, token.LEQ, token.GTR, token.GEQ:
@@ -519,6 +588,8 @@ func terminates(stmts []ast.Stmt) bool {
 	switch x := stmts[len(stmts)-1].(type) {
 	case *ast.ReturnStmt:
 		return true
+	case *ast.BranchStmt:
+		return x.Tok == token.BREAK && x.Label == nil
 	case *ast.BlockStmt:
 		return terminates(x.List)
 	case *ast.IfStmt:
@@ -534,9 +605,13 @@ func hasReturn(stmts []ast.Stmt) bool {
 	found := false
 	for _, s := range stmts {
 		ast.Inspect(s, func(n ast.Node) bool {
-			switch n.(type) {
-			case *ast.ReturnStmt, *ast.BranchStmt:
+			switch x := n.(type) {
+			case *ast.ReturnStmt:
 				found = true
+			case *ast.BranchStmt:
+				if x.Tok != token.BREAK || x.Label != nil {
+					found = true
+				}
 			}
 			return true
 		})
@@ -565,11 +640,15 @@ func tuple(vars []string) string {
 }
 
 // rebind: `let r := e; let a := r.1; let b := r.2.1; ...`
-func rebind(vars []string, e string, tmp string) string {
+func rebind(vars []string, sc scope, e string, tmp string) string {
 	if len(vars) == 1 {
-		return "let " + lname(vars[0]) + " := " + e + ";\n  "
+		return "let " + lname(vars[0]) + " : " + sc[vars[0]] + " := " + e + ";\n  "
 	}
-	s := "let " + tmp + " := " + e + ";\n  "
+	var tys []string
+	for _, v := range vars {
+		tys = append(tys, sc[v])
+	}
+	s := "let " + tmp + " : " + strings.Join(tys, " × ") + " := " + e + ";\n  "
 	proj := tmp
 	for i, v := range vars {
 		if i < len(vars)-1 {
@@ -689,7 +768,7 @@ func (t *translator) stmts(list []ast.Stmt, sc scope, fall func(sc scope) string
 		join := func(scope) string { return tuple(vars) }
 		e := "(if " + c + " then (" + t.stmts(x.Body.List, sc, join) + ") else (" + t.stmts(els, sc, join) + "))"
 		t.nloop++
-		return rebind(vars, e, fmt.Sprintf("r%d", t.nloop)) + t.stmts(rest, sc, fall)
+		return rebind(vars, sc, e, fmt.Sprintf("r%d", t.nloop)) + t.stmts(rest, sc, fall)
 	case *ast.ForStmt:
 		pre := ""
 		if x.Init != nil {
@@ -700,7 +779,10 @@ func (t *translator) stmts(list []ast.Stmt, sc scope, fall func(sc scope) string
 			bail(x.Pos(), "loop without a condition")
 		}
 		if hasReturn(x.Body.List) {
-			bail(x.Pos(), "return/break/continue inside a loop")
+			bail(x.Pos(), "return/continue inside a loop")
+		}
+		if call, ok := x.Cond.(*ast.CallExpr); ok {
+			return t.callLoop(x, call, rest, sc, fall)
 		}
 		acc := map[string]bool{}
 		assigned(x.Body.List, sc, acc)
@@ -753,7 +835,12 @@ func (t *translator) stmts(list []ast.Stmt, sc scope, fall func(sc scope) string
 			strings.Join(sargs, ", "), tuple(vars), strings.Join(sargs, ", "),
 			t.cond(x.Cond, sc), t.stmts(body, sc, again), tuple(vars))
 		t.aux = append(t.aux, def)
-		return pre + rebind(vars, "("+call(fmt.Sprint(loopFuel))+")", fmt.Sprintf("r%d", t.nloop)) + t.stmts(rest, sc, fall)
+		return pre + rebind(vars, sc, "("+call(fmt.Sprint(loopFuel))+")", fmt.Sprintf("r%d", t.nloop)) + t.stmts(rest, sc, fall)
+	case *ast.BranchStmt:
+		if x.Tok == token.BREAK && x.Label == nil && t.brk != nil {
+			return t.brk(sc)
+		}
+		bail(x.Pos(), "unsupported branch statement")
 	case *ast.ExprStmt:
 		bail(x.Pos(), "expression statement (side effect)")
 	}
@@ -771,6 +858,68 @@ func (t *translator) result(explicit []string) string {
 		return l[0]
 	}
 	return "(" + strings.Join(l, ", ") + ")"
+}
+
+// callLoop: `for recv.m() { body }` where m is a translated method with a bool result that assigns through its
+// receiver (an iterator's next).  The loop becomes a recursive function over the receiver and the variables the body
+// assigns; one round is `let r := m recv; if r.1 then (body; again) else state`.  Such a loop is bounded by the data,
+// not by a constant: the enclosing function takes a FUEL argument (first parameter), the number of rounds it may run.
+func (t *translator) callLoop(x *ast.ForStmt, call *ast.CallExpr, rest []ast.Stmt, sc scope, fall func(scope) string) string {
+	if x.Post != nil || len(call.Args) != 0 {
+		bail(x.Pos(), "unsupported loop header")
+	}
+	sel, ok := call.Fun.(*ast.SelectorExpr)
+	if !ok {
+		bail(x.Pos(), "unsupported loop condition")
+	}
+	rid, ok := sel.X.(*ast.Ident)
+	if !ok {
+		bail(x.Pos(), "the loop condition is not a method call on a variable")
+	}
+	k := t.key(sc[rid.Name], sel.Sel.Name)
+	if _, ok := t.funcs[k]; !ok {
+		bail(x.Pos(), "the loop condition calls %s, which is not translated", k)
+	}
+	t.need(k)
+	acc := map[string]bool{rid.Name: true}
+	assigned(x.Body.List, sc, acc)
+	vars := sorted(acc)
+	used := map[string]bool{}
+	ast.Inspect(x.Body, func(n ast.Node) bool {
+		if id, ok := n.(*ast.Ident); ok {
+			if _, ok := sc[id.Name]; ok && !acc[id.Name] {
+				used[id.Name] = true
+			}
+		}
+		return true
+	})
+	params := sorted(used)
+	t.nloop++
+	t.fuel = true
+	name := fmt.Sprintf("%s_loop%d", t.defName(t.fn), t.nloop)
+	var binders, pargs, sargs, stys []string
+	for _, p := range params {
+		binders = append(binders, fmt.Sprintf("(%s : %s)", lname(p), sc[p]))
+		pargs = append(pargs, lname(p))
+	}
+	for _, v := range vars {
+		sargs = append(sargs, lname(v))
+		stys = append(stys, sc[v])
+	}
+	callStr := func(fuel string) string {
+		return strings.TrimSpace(name + " " + strings.Join(pargs, " ") + " " + fuel + " " + strings.Join(sargs, " "))
+	}
+	oldBrk := t.brk
+	t.brk = func(scope) string { return tuple(vars) }
+	body := t.stmts(x.Body.List, sc, func(scope) string { return callStr("fuel") })
+	t.brk = oldBrk
+	r := lname(rid.Name)
+	def := fmt.Sprintf("def %s %s : Nat → %s → %s\n  | 0, %s => %s\n  | fuel+1, %s =>\n  let r := %s %s;\n  let %s : %s := r.2;\n  if r.1 = true then (%s)\n  else %s\n",
+		name, strings.Join(binders, " "), strings.Join(stys, " → "), strings.Join(stys, " × "),
+		strings.Join(sargs, ", "), tuple(vars), strings.Join(sargs, ", "),
+		t.defName(k), r, r, sc[rid.Name], body, tuple(vars))
+	t.aux = append(t.aux, def)
+	return rebind(vars, sc, "("+callStr("fuel")+")", fmt.Sprintf("r%d", t.nloop)) + t.stmts(rest, sc, fall)
 }
 
 func (t *translator) ret(x *ast.ReturnStmt, sc scope) string {
@@ -823,9 +972,9 @@ func (t *translator) need(k string) {
 		return
 	}
 	// save the per-function state, translate the callee, restore
-	fn, aux, nloop, named, muts, isErr, rbool, gty := t.fn, t.aux, t.nloop, t.named, t.muts, t.isErr, t.rbool, t.gty
+	fn, aux, nloop, named, muts, isErr, rbool, gty, brk, fuel := t.fn, t.aux, t.nloop, t.named, t.muts, t.isErr, t.rbool, t.gty, t.brk, t.fuel
 	t.function(k)
-	t.fn, t.aux, t.nloop, t.named, t.muts, t.isErr, t.rbool, t.gty = fn, aux, nloop, named, muts, isErr, rbool, gty
+	t.fn, t.aux, t.nloop, t.named, t.muts, t.isErr, t.rbool, t.gty, t.brk, t.fuel = fn, aux, nloop, named, muts, isErr, rbool, gty, brk, fuel
 	if msg, bad := t.failed[k]; bad {
 		bail(token.NoPos, "depends on %s, which was not translated (%s)", k, msg)
 	}
@@ -839,6 +988,7 @@ func (t *translator) function(k string) {
 	fd := t.funcs[k]
 	t.fn, t.aux, t.nloop, t.named, t.muts, t.isErr, t.rbool = k, nil, 0, nil, nil, false, nil
 	t.gty = map[string]string{}
+	t.brk, t.fuel = nil, false
 	defer func() {
 		if r := recover(); r != nil {
 			u, ok := r.(unsupported)
@@ -909,8 +1059,8 @@ func (t *translator) function(k string) {
 				continue
 			}
 			ty := leanType(r.Type, t.structs)
-			if ty != "Int" && ty != "Bool" {
-				bail(r.Pos(), "result type is neither an integer nor a bool")
+			if ty == "" || strings.HasPrefix(ty, "List") {
+				bail(r.Pos(), "result type is not an integer, a bool or a translated struct")
 			}
 			cnt := len(r.Names)
 			if cnt == 0 {
@@ -956,6 +1106,9 @@ func (t *translator) function(k string) {
 		return t.result(l)
 	}
 	body := t.stmts(fd.Body.List, sc, fall)
+	if t.fuel {
+		binders = append([]string{"(fuel : Nat)"}, binders...) // see callLoop
+	}
 	def := fmt.Sprintf("def %s %s : %s :=\n  %s%s\n", t.defName(k), strings.Join(binders, " "), rty, pre, body)
 	t.out = append(t.out, strings.Join(t.aux, "\n"))
 	t.out = append(t.out, def)
@@ -1018,11 +1171,12 @@ func (t *translator) loopSnippets(fd *ast.FuncDecl) {
 }
 
 var codeGroups = []codeGroup{
-	{file: "hdrhist/hdr.go", namespace: "Hdr", structs: []string{"Histogram"},
+	{file: "hdrhist/hdr.go", namespace: "Hdr", structs: []string{"Histogram", "iterator"},
 		funcs: []string{"bitLen", "Histogram.getBucketIndex", "Histogram.getSubBucketIdx", "Histogram.countsIndex",
 			"Histogram.valueFromIndex", "Histogram.countsIndexFor", "Histogram.sizeOfEquivalentValueRange",
 			"Histogram.lowestEquivalentValue", "Histogram.nextNonEquivalentValue", "Histogram.highestEquivalentValue",
-			"Histogram.medianEquivalentValue", "Histogram.getCountAtIndex", "Histogram.RecordValues"},
+			"Histogram.medianEquivalentValue", "Histogram.getCountAtIndex", "Histogram.RecordValues", "iterator.next", "Histogram.iterator",
+			"Histogram.Max", "Histogram.Min"},
 		loops: []string{"New"}},
 	{file: "events/performance.go", namespace: "Events",
 		structs: []string{"PerformanceCounters", "PerformanceTimers", "PerformanceGauges", "Performance"},
